@@ -150,6 +150,7 @@ fn canonical_variant(world: &World, role: &str) -> Variant {
         hash_seed: 1,
         faults: vec![],
         unprivileged: false,
+        cwd: None,
     }
 }
 
@@ -162,7 +163,7 @@ fn random_variant(rng: &mut Rng, world: &World, role: &str, max_files: usize) ->
     }
     let args = present(rng, &files);
     let entry = if rng.chance(1, 5) { Entry::ApiText } else { Entry::Check };
-    Variant { role: role.to_string(), entry, files, extras: vec![], args, dir_seed: rng.next(), hash_seed: rng.next(), faults: vec![], unprivileged: false }
+    Variant { role: role.to_string(), entry, files, extras: vec![], args, dir_seed: rng.next(), hash_seed: rng.next(), faults: vec![], unprivileged: false, cwd: None }
 }
 
 // ---------------------------------------------------------------------------------------------
@@ -502,7 +503,7 @@ fn gen_c13_boundary(rng: &mut Rng, index: u64) -> WorldTrace {
         }
     };
     let world = World { decls, fault: None };
-    let v = Variant { role: role.into(), entry, files, extras: vec![], args: vec!["ws".into()], dir_seed: rng.next(), hash_seed: rng.next(), faults: vec![], unprivileged: false };
+    let v = Variant { role: role.into(), entry, files, extras: vec![], args: vec!["ws".into()], dir_seed: rng.next(), hash_seed: rng.next(), faults: vec![], unprivileged: false, cwd: None };
     WorldTrace { prop: "C13".into(), world, variants: vec![v], mode: format!("boundary:{n}") }
 }
 
@@ -547,6 +548,7 @@ pub fn gen_c13(rng: &mut Rng, thorough: bool, run_index: u64) -> WorldTrace {
         hash_seed: rng.next(),
         faults: vec![],
         unprivileged: false,
+        cwd: None,
     };
     let file_args = |rng: &mut Rng| {
         let mut l: Vec<String> = files.iter().map(|f| format!("ws/{}", f.name)).collect();
@@ -932,7 +934,7 @@ pub fn gen_c14(rng: &mut Rng, thorough: bool, run_index: u64) -> WorldTrace {
         let file = FileSpec { name: "sweep.st".into(), decls: vec![], enc: Enc::Utf8, raw: Some(sweep_bytes(position, byte)), via_symlink: false };
         let mut variants = vec![];
         for entry in [Entry::Check, Entry::Tokenize, Entry::ApiPush, Entry::Echo, Entry::LspTokens] {
-            variants.push(Variant { role: "corrupt".into(), entry, files: vec![file.clone()], extras: vec![], args: vec!["ws/sweep.st".into()], dir_seed: 1, hash_seed: rng.next(), faults: vec![], unprivileged: false });
+            variants.push(Variant { role: "corrupt".into(), entry, files: vec![file.clone()], extras: vec![], args: vec!["ws/sweep.st".into()], dir_seed: 1, hash_seed: rng.next(), faults: vec![], unprivileged: false, cwd: None });
         }
         return WorldTrace { prop: "C14".into(), world, variants, mode: format!("sweep:{}:{byte}", ["string", "comment", "between_tokens", "identifier"][position]) };
     }
@@ -959,10 +961,10 @@ pub fn gen_c14(rng: &mut Rng, thorough: bool, run_index: u64) -> WorldTrace {
         for role in ["twin", "twin", "twin"] {
             let mut f = files.clone();
             assign_encodings(rng, &world, &mut f, allow_1252);
-            variants.push(Variant { role: role.into(), entry, files: f, extras: vec![], args: args.clone(), dir_seed, hash_seed, faults: vec![], unprivileged: false });
+            variants.push(Variant { role: role.into(), entry, files: f, extras: vec![], args: args.clone(), dir_seed, hash_seed, faults: vec![], unprivileged: false, cwd: None });
         }
         // reference twin: plain UTF-8
-        variants.insert(0, Variant { role: "reference".into(), entry, files: files.clone(), extras: vec![], args, dir_seed, hash_seed, faults: vec![], unprivileged: false });
+        variants.insert(0, Variant { role: "reference".into(), entry, files: files.clone(), extras: vec![], args, dir_seed, hash_seed, faults: vec![], unprivileged: false, cwd: None });
         WorldTrace { prop: "C14".into(), world, variants, mode: "twins".into() }
     } else {
         // corrupted storage
@@ -971,7 +973,7 @@ pub fn gen_c14(rng: &mut Rng, thorough: bool, run_index: u64) -> WorldTrace {
             assign_encodings(rng, &world, &mut f, true);
             let args = present(rng, &f);
             let entry = *rng.pick(&[Entry::Check, Entry::Check, Entry::ApiPush, Entry::Tokenize, Entry::Echo, Entry::LspTokens]);
-            let mut v = Variant { role: "corrupt".into(), entry, files: f, extras: vec![], args, dir_seed: rng.next(), hash_seed: rng.next(), faults: vec![], unprivileged: false };
+            let mut v = Variant { role: "corrupt".into(), entry, files: f, extras: vec![], args, dir_seed: rng.next(), hash_seed: rng.next(), faults: vec![], unprivileged: false, cwd: None };
             let fi = rng.below(v.files.len());
             let mut bytes = file_bytes(&world, &v.files[fi]);
             match rng.below(7) {
@@ -1207,7 +1209,7 @@ pub fn gen_c03(rng: &mut Rng, thorough: bool) -> WorldTrace {
     }
     let company: Vec<usize> = (0..world.decls.len()).filter(|d| !involved.contains(d)).collect();
     let faulty_file = |name: &str| FileSpec { name: name.to_string(), decls: involved.clone(), enc: Enc::Utf8, raw: None, via_symlink: false };
-    let mk = |role: &str, entry: Entry, files: Vec<FileSpec>, args: Vec<String>, rng: &mut Rng| Variant { role: role.into(), entry, files, extras: vec![], args, dir_seed: rng.next(), hash_seed: rng.next(), faults: vec![], unprivileged: false };
+    let mk = |role: &str, entry: Entry, files: Vec<FileSpec>, args: Vec<String>, rng: &mut Rng| Variant { role: role.into(), entry, files, extras: vec![], args, dir_seed: rng.next(), hash_seed: rng.next(), faults: vec![], unprivileged: false, cwd: None };
     let mut variants = vec![mk("alone", Entry::Check, vec![faulty_file("faulty.st")], vec!["ws/faulty.st".into()], rng)];
     // reference for "the company is valid": the accompanying declarations alone
     let mut company_only = mk("company", Entry::Check, vec![FileSpec { name: "company.st".into(), decls: company.clone(), enc: Enc::Utf8, raw: None, via_symlink: false }], vec!["ws/company.st".into()], rng);
@@ -1403,6 +1405,7 @@ pub fn execute(t: &WorldTrace, stats: &mut Stats) -> RunReport {
                 symlinked: v.files.iter().filter(|f| f.via_symlink).map(|f| f.name.clone()).collect(),
                 extras: v.extras.clone(),
                 unprivileged: v.unprivileged,
+                cwd: v.cwd.clone(),
                 cmd: cmd.to_string(),
                 args: v.args.clone(),
                 predicted_ok: !o.failed(),
@@ -1422,6 +1425,13 @@ pub fn generate(prop: &str, rng: &mut Rng, thorough: bool, run_index: u64) -> Wo
         other => panic!("no world generator for {other}"),
     };
     add_symlinked_files(rng, &mut t);
+    // one command-line variant in six is started inside the simulated disk (in its root or in ws/)
+    // and names its arguments by relative paths
+    for v in t.variants.iter_mut() {
+        if matches!(v.entry, Entry::Check | Entry::Echo | Entry::Tokenize) && !v.role.starts_with("fault.") && rng.chance(1, 6) {
+            v.cwd = Some((*rng.pick(&["", "ws"])).to_string());
+        }
+    }
     t
 }
 
